@@ -246,10 +246,10 @@ def h8():
 
 
 class NoLoader:
-    """no loader can be produced for this class (its constructor parameter has no type)"""
+    """no loader can be produced for this class (*args can not be filled from data)"""
 
-    def __init__(self, x):
-        self.x = x
+    def __init__(self, *args):
+        self.args = args
 
 
 @dataclass
@@ -274,6 +274,9 @@ def h9():
                 out.append("refused")
         return repr(out)
 
+    assert failing() == "['refused', 'refused']", "the H9 harness must contain requests that fail"
+    _fresh_world()
+    r = Retort()
     return ([failing, lambda: repr(r.load(NODE_DATA, Node))],
             {"retort": r, "post": lambda: [repr(r.load(NODE_DATA, Node)), failing(), repr(r.dump(NODE_OBJ, Node))]})
 
@@ -402,8 +405,21 @@ def run(tier):
         # root execution in this process, its first-level children become shards
         bodies, ctx = HARNESSES[hname]()
         ex = sched.Execution(bodies, [], REGIONS[rname](), record_sites=True)
-        results = ex.run()
         sub = Report()
+        try:
+            results = ex.run()
+        except sched.Deadlock as e:
+            make_check(hname, rname, bound, sub)(("deadlock", repr(e.args[0])[:300]), ex, ctx, [])
+            report.merge(sub)
+            continue        # the default schedule already fails: nothing to branch from
+        except sched.Stuck as e:
+            make_check(hname, rname, bound, sub)(("stuck", repr(e.args[0])[:300]), ex, ctx, [])
+            report.merge(sub)
+            continue
+        except sched.HorizonExceeded:
+            make_check(hname, rname, bound, sub)(("livelock",), ex, ctx, [])
+            report.merge(sub)
+            continue
         make_check(hname, rname, bound, sub)(("done", results), ex, ctx, [])
         report.merge(sub)
         report.count("states", len(ex.choices))
